@@ -1,8 +1,457 @@
-import KG.Spec.K8sStore
-namespace KG.Props.C19
-open KG KG.Model.K8sStore KG.Spec.K8sStore
+import KG.Lemmas.K8sStore
+/-!
+# C19 — API-backed limiter store: acknowledged state survives crashes, per shard
 
-/-- placeholder while the harness is brought up; replaced by the real theorems -/
-theorem placeholder : judge Ghost.empty ⟨[], 1⟩ = true := by decide
+Model: `KG.Model.K8sStore` (`pkg/ratelimiter/store/k8s/cache_store.go` over the local cache and an API stand-in with
+a fault script consumed call by call; crash points = the API after every call). Judge: `KG.Spec.K8sStore`.
+
+The property, for EVERY history of operations (incl. restarts = crashes between operations), EVERY fault script,
+EVERY crash point, every iteration order of the cache, every shard function:
+
+* `c19_durable` — at every crash point the API honours every claim the history has made so far
+  (`KG.Spec.K8sStore.judge`): a condition whose write-through `Save` was acknowledged is persisted with that spec
+  and status until somebody saves/deletes it again (or another writer removes it); after `Stop`/`Flush` answered
+  nil every local condition of the shard is persisted; a condition whose `Delete`/`DeleteUpstream` was
+  acknowledged is absent — during and after every later flush, save of other conditions, load, restart — until it
+  is saved again (no resurrection). Calls of other goroutines landing inside a running flush are part of the
+  histories, as far as the store mutex lets them (`allowedHist`; lock facts regenerated from the source:
+  `genLocks_good`).
+* `c19_ack_persisted`, `c19_delete_durable`, `c19_deleteUpstream_durable`, `c19_stop_flushes` — the same facts at the
+  moment the operation answers, without any assumption on the state.
+* `c19_load_exact`, `c19_crash_points_nodup` — a fresh store that `Load`s at any crash point holds exactly the
+  persisted conditions of its shard.
+* `c19_save_inside_flush_refuted`, `c19_delete_inside_flush_refuted` — what the two repairs of `/repo` (53e64a0,
+  4930fff) prevent: were a write-through `Save` / a `Delete` able to run inside a flush, the property would fail.
+-/
+namespace KG.Props.C19
+open KG KG.Model.K8sStore KG.Spec.K8sStore KG.Lemmas.K8sStore
+
+/-- The lock facts extracted from the current source: flush, `Delete`, `DeleteUpstream` and the write-through
+    `Save` hold the store mutex. (Fails to check when one of these locks is removed.) -/
+theorem genLocks_good : GoodLocks genLocks := ⟨rfl, rfl, rfl, rfl⟩
+
+/-- with these locks, what can land inside a running flush is a periodic `Save` (cache only) -/
+theorem c19_only_periodic_saves_inside (wt : Bool) (intr : Op) (h : allowedIntr genLocks wt intr = true) :
+    ∃ k c, intr = .save k c ∧ wt = false :=
+  allowed_save genLocks_good h
+
+/-- **Main theorem.** `up` is any function giving the upstream of a condition name (the limiter's names are
+    `<upstream>.<instance>` / `<upstream>.state`): every operation uses the condition's upstream as cache key, and
+    the API starts with conditions named that way, each name once. -/
+theorem c19_durable (sh : Str → Nat) (up : Str → Str) (L : Locks) (hL : GoodLocks L)
+    (shard : Nat) (wt : Bool) (steps : Nat) (api0 : Api) (script : List Fault) (ops : List OpI)
+    (hapi : ApiWf up api0) (hops : ∀ op ∈ ops, OpIWf up op) (hallowed : allowedHist L wt ops = true) :
+    ∀ p ∈ checkAll sh (newStore shard wt steps) Ghost.empty ⟨api0, script, []⟩ ops, judge p.1 p.2 = true := by
+  intro p hp
+  rw [judge_iff]
+  apply checkAll_ok sh up hL ops (newStore shard wt steps) Ghost.empty ⟨api0, script, []⟩ _ hops hallowed p hp
+  refine ⟨⟨?_, ?_⟩, ⟨?_, ?_⟩, ?_, ?_, hapi⟩
+  · intro h hh; cases hh
+  · intro n hn; cases hn
+  · intro h hh; cases hh
+  · intro n hn; cases hn
+  · intro e he; cases he
+  · intro e he; cases he
+
+/-- the main theorem for the store as it is in `/repo` now -/
+theorem c19_durable_repo (sh : Str → Nat) (up : Str → Str)
+    (shard : Nat) (wt : Bool) (steps : Nat) (api0 : Api) (script : List Fault) (ops : List OpI)
+    (hapi : ApiWf up api0) (hops : ∀ op ∈ ops, OpIWf up op) (hallowed : allowedHist genLocks wt ops = true) :
+    ∀ p ∈ checkAll sh (newStore shard wt steps) Ghost.empty ⟨api0, script, []⟩ ops, judge p.1 p.2 = true :=
+  c19_durable sh up genLocks genLocks_good shard wt steps api0 script ops hapi hops hallowed
+
+/-! ## At the moment the operation answers (no assumption on the state) -/
+
+/-- Write-through: `Save` answers nil ⇒ the API holds that condition's spec and status (whatever the state,
+    the fault script, the retries taken). -/
+theorem c19_ack_persisted (sh : Str → Nat) (st st' : Store) (k : Str) (c : Cond) (w w' : World)
+    (hwt : st.cfg.writeThrough = true) (h : save sh st k c w = (st', w', .ok)) :
+    holdsData w'.api c.name c.data = true := by
+  rw [holdsData_iff]
+  unfold save at h
+  split at h
+  · cases h
+  · cases hC : createOrUpdate st.cfg.steps c w with
+    | mk w1 r =>
+    rw [hC] at h
+    obtain ⟨_, _, hok⟩ := createOrUpdate_spec _ c w w1 r hC
+    cases r with
+    | error e => simp only [] at h; cases h
+    | ok c' =>
+      simp only [] at h
+      cases h
+      exact (hok c' rfl).1
+
+/-- … and what it caches is that condition -/
+theorem c19_ack_cached (sh : Str → Nat) (st st' : Store) (k : Str) (c : Cond) (w w' : World)
+    (hwt : st.cfg.writeThrough = true) (h : save sh st k c w = (st', w', .ok)) :
+    ∃ c', lget k c.name st'.loc = some c' ∧ c'.data = c.data := by
+  unfold save at h
+  split at h
+  · cases h
+  · cases hC : createOrUpdate st.cfg.steps c w with
+    | mk w1 r =>
+    rw [hC] at h
+    obtain ⟨_, _, hok⟩ := createOrUpdate_spec _ c w w1 r hC
+    cases r with
+    | error e => simp only [] at h; cases h
+    | ok c' =>
+      simp only [] at h
+      cases h
+      obtain ⟨_, hn, hd⟩ := hok c' rfl
+      refine ⟨c', ?_, hd⟩
+      simp [lget, lput, sameKey, List.find?, hn]
+
+/-- a `Save` that answers an error (or refuses a condition of another shard) leaves the cache as it was -/
+theorem c19_failed_save_not_cached (sh : Str → Nat) (st st' : Store) (k : Str) (c : Cond) (w w' : World) (res : Res)
+    (hres : res ≠ .ok) (h : save sh st k c w = (st', w', res)) : st' = st := by
+  unfold save at h
+  split at h
+  · cases h; rfl
+  · split at h
+    · split at h
+      · cases h; rfl
+      · cases h; exact absurd rfl hres
+    · cases h; exact absurd rfl hres
+
+/-- `Delete` answers nil ⇒ the condition is not in the API -/
+theorem c19_delete_durable (st st' : Store) (k n : Str) (w w' : World) (h : delete st k n w = (st', w', .ok)) :
+    w'.api.get n = none ∧ lget k n st'.loc = none := by
+  unfold delete at h
+  cases hD : delLoop n st.cfg.steps w with
+  | mk w1 r =>
+  rw [hD] at h
+  obtain ⟨_, _, hok⟩ := delLoop_spec n _ w w1 r hD
+  cases r with
+  | error e => simp only [] at h; cases h
+  | ok u =>
+    simp only [] at h
+    cases h
+    refine ⟨(hok rfl).2, ?_⟩
+    simp only [lget, Option.map_eq_none_iff, List.find?_eq_none]
+    intro e he
+    have := (mem_ldel.1 he).2
+    simpa [sameKey] using this
+
+/-- `DeleteUpstream` answers nil ⇒ none of its conditions is in the API, and the cache has none under that key -/
+theorem c19_deleteUpstream_durable (st st' : Store) (k : Str) (ord : List (Str × Str)) (w w' : World)
+    (h : deleteUpstream st k ord w = (st', w', .ok)) :
+    (∀ e ∈ llistUp k st.loc, w'.api.get e.2.name = none) ∧ llistUp k st'.loc = [] := by
+  unfold deleteUpstream at h
+  cases hD : delAll st.cfg.steps (arrange ord (llistUp k st.loc)) w with
+  | mk w1 r =>
+  rw [hD] at h
+  obtain ⟨_, _, hok⟩ := delAll_spec _ _ w w1 r hD
+  cases r with
+  | error e => simp only [] at h; cases h
+  | ok u =>
+    simp only [] at h
+    cases h
+    refine ⟨fun e he => hok rfl e (mem_arrange.2 he), ?_⟩
+    simp [llistUp, ldelUp, List.filter_filter]
+
+/-- an operation that answers an error claims nothing, and the cache keeps what it had -/
+theorem c19_failed_delete_keeps_cache (st st' : Store) (k n : Str) (w w' : World) (e : Err)
+    (h : delete st k n w = (st', w', .err e)) : st' = st := by
+  unfold delete at h
+  split at h <;> cases h
+  rfl
+
+/-- `Stop` of a store that was not stopped answers nil ⇒ every local condition of the shard is persisted with its
+    spec and status (write-through or periodic; for every visiting order and fault script). `Coherent`: the cache
+    does not hold two different conditions under one name (true of every reachable cache: `Inv.coh`). -/
+theorem c19_stop_flushes (sh : Str → Nat) (st st' : Store) (ord : List (Str × Str)) (w w' : World)
+    (hst : st.stopped = false) (hcoh : Coherent st.loc) (h : stop sh st ord w = (st', w', .ok)) :
+    (∀ e ∈ st.loc, sh e.2.upstream = st.cfg.shard → holdsData w'.api e.2.name e.2.data = true) ∧ st'.stopped = true := by
+  unfold stop at h
+  rw [if_neg (by simp [hst])] at h
+  cases hS : syncAll sh st.cfg.shard st.cfg.steps (arrange ord st.loc) w with
+  | mk w1 r =>
+  rw [hS] at h
+  obtain ⟨_, _, hok⟩ := syncAll_spec sh _ _ _ w w1 r hS
+  cases r with
+  | error e => simp only [] at h; cases h
+  | ok u =>
+    simp only [] at h
+    cases h
+    refine ⟨fun e he hown => ?_, rfl⟩
+    rw [holdsData_iff]
+    exact hok rfl (hcoh.sub (fun e he => mem_arrange.1 he)) e (mem_arrange.2 he) hown
+
+/-- the same for an explicit `Flush` (what the periodic goroutine runs) -/
+theorem c19_flush_flushes (sh : Str → Nat) (st st' : Store) (ord : List (Str × Str)) (w w' : World)
+    (hcoh : Coherent st.loc) (h : flush sh st ord w = (st', w', .ok)) :
+    ∀ e ∈ st.loc, sh e.2.upstream = st.cfg.shard → holdsData w'.api e.2.name e.2.data = true := by
+  unfold flush at h
+  cases hS : syncAll sh st.cfg.shard st.cfg.steps (arrange ord st.loc) w with
+  | mk w1 r =>
+  rw [hS] at h
+  obtain ⟨_, _, hok⟩ := syncAll_spec sh _ _ _ w w1 r hS
+  cases r with
+  | error e => simp only [] at h; cases h
+  | ok u =>
+    simp only [] at h
+    cases h
+    intro e he hown
+    rw [holdsData_iff]
+    exact hok rfl (hcoh.sub (fun e he => mem_arrange.1 he)) e (mem_arrange.2 he) hown
+
+/-! ## What the next holder of a shard loads -/
+
+theorem loadAll_mem (sh : Str → Nat) (shard : Nat) : ∀ (items : List Cond) (l : Loc),
+    items.Pairwise (fun c d => ¬ c.name = d.name) → (∀ e ∈ l, ∀ c ∈ items, ¬ e.2.name = c.name) →
+    ∀ e, e ∈ loadAll sh shard items l ↔ e ∈ l ∨ ∃ c ∈ items, sh c.upstream = shard ∧ e = (c.upstream, c) := by
+  intro items
+  induction items with
+  | nil => intro l _ _ e; simp [loadAll]
+  | cons c rest ih =>
+    intro l hp hd e
+    obtain ⟨hc, hrest⟩ := List.pairwise_cons.1 hp
+    simp only [loadAll]
+    split
+    · rename_i hsh
+      rw [ih l hrest (fun e he c' hc' => hd e he c' (List.mem_cons_of_mem _ hc')) e]
+      constructor
+      · rintro (h | ⟨c', hc', hown, he⟩)
+        · exact .inl h
+        · exact .inr ⟨c', List.mem_cons_of_mem _ hc', hown, he⟩
+      · rintro (h | ⟨c', hc', hown, he⟩)
+        · exact .inl h
+        · rcases List.mem_cons.1 hc' with rfl | hc'
+          · exact absurd hown hsh
+          · exact .inr ⟨c', hc', hown, he⟩
+    · rename_i hsh
+      have hown : sh c.upstream = shard := by simpa using hsh
+      rw [ih (lput c.upstream c l) hrest (by
+        intro e he c' hc'
+        rcases mem_lput.1 he with rfl | ⟨he, _⟩
+        · exact hc c' hc'
+        · exact hd e he c' (List.mem_cons_of_mem _ hc')) e]
+      constructor
+      · rintro (h | ⟨c', hc', hown', he⟩)
+        · rcases mem_lput.1 h with rfl | ⟨h, _⟩
+          · exact .inr ⟨c, List.mem_cons_self .., hown, rfl⟩
+          · exact .inl h
+        · exact .inr ⟨c', List.mem_cons_of_mem _ hc', hown', he⟩
+      · rintro (h | ⟨c', hc', hown', he⟩)
+        · exact .inl (mem_lput.2 (.inr ⟨h, fun hh => hd e h c (List.mem_cons_self ..) hh.2⟩))
+        · rcases List.mem_cons.1 hc' with rfl | hc'
+          · exact .inl (mem_lput.2 (.inl he))
+          · exact .inr ⟨c', hc', hown', he⟩
+
+/-- "A server that gains a shard loads exactly the persisted conditions of that shard, and nothing of other
+    shards": a fresh store whose `Load` answers nil caches exactly `persistedOf shard` of the API it listed, each
+    condition under its upstream. (`ApiNodup`: every crash point of every history has it, `c19_crash_points_nodup`.) -/
+theorem c19_load_exact (sh : Str → Nat) (shard : Nat) (wt : Bool) (steps : Nat) (w w' : World) (st' : Store)
+    (hn : ApiNodup w.api) (h : load sh (newStore shard wt steps) w = (st', w', .ok)) :
+    w'.api = w.api ∧ ∀ e, e ∈ st'.loc ↔ e.1 = e.2.upstream ∧ e.2 ∈ persistedOf sh shard w.api := by
+  unfold load at h
+  cases hL : apiList w with
+  | mk w1 r =>
+  rw [hL] at h
+  obtain ⟨_, _, hsame, hitems⟩ := apiList_spec w w1 r hL
+  cases r with
+  | error e => simp only [] at h; cases h
+  | ok items =>
+    have hi := hitems items rfl
+    simp only [] at h
+    cases h
+    refine ⟨hsame, fun e => ?_⟩
+    simp only [newStore]
+    rw [loadAll_mem sh shard items [] (hi ▸ hn) (fun e he => by cases he) e, hi]
+    simp only [persistedOf, List.mem_filter, decide_eq_true_eq]
+    constructor
+    · rintro (h | ⟨c, hc, hown, rfl⟩)
+      · cases h
+      · exact ⟨rfl, hc, hown⟩
+    · rintro ⟨hk, hc, hown⟩
+      exact .inr ⟨e.2, hc, hown, Prod.ext hk rfl⟩
+
+/-- a `Load` that fails leaves the fresh store empty (the limiter then drops the store) -/
+theorem c19_load_failed (sh : Str → Nat) (shard : Nat) (wt : Bool) (steps : Nat) (w w' : World) (st' : Store) (e : Err)
+    (h : load sh (newStore shard wt steps) w = (st', w', .err e)) : st'.loc = [] := by
+  unfold load at h
+  split at h <;> cases h
+  rfl
+
+/-- at whatever point the previous holder crashed: every crash point of every history (any operations, any
+    intruders, any fault script) keeps names unique, so `c19_load_exact` applies to it -/
+theorem c19_crash_points_nodup (sh : Str → Nat) : ∀ (ops : List OpI) (st : Store) (w : World),
+    ApiNodup w.api → (∀ p ∈ w.trace, ApiNodup p.api) →
+    (∀ p ∈ (runAll sh st w ops).2.trace, ApiNodup p.api) ∧ ApiNodup (runAll sh st w ops).2.api := by
+  intro ops
+  induction ops with
+  | nil => intro st w h1 h2; exact ⟨h2, h1⟩
+  | cons op ops ih =>
+    intro st w h1 h2
+    cases hS : stepI sh st op w with
+    | mk st' rest =>
+    obtain ⟨w', res, ir⟩ := rest
+    simp only [runAll, hS]
+    obtain ⟨pts, hr⟩ := stepI_run sh hS
+    obtain ⟨hp, ha⟩ := path_nodup hr.2 h1
+    apply ih st' w' ha
+    intro p hp'
+    rw [hr.1] at hp'
+    rcases List.mem_append.1 hp' with hp' | hp'
+    · exact hp p (List.mem_reverse.1 hp')
+    · exact h2 p hp'
+
+/-! ## No resurrection, spelled out for one flush -/
+
+/-- A flush (any visiting order, any faults) does not create a condition that is neither in the API nor in the
+    cache — at none of its crash points. With `c19_delete_durable` (after an acknowledged `Delete` the condition is
+    in neither) and the store mutex (no deletion lands between the flush's snapshot and its writes: `genLocks_good`)
+    this is "a deleted condition is not re-created by a flush"; `c19_durable` carries it through whole histories. -/
+theorem c19_flush_does_not_resurrect (sh : Str → Nat) (st st' : Store) (ord : List (Str × Str)) (w w' : World) (res : Res)
+    (n : Str) (hapi : w.api.get n = none) (hloc : ∀ e ∈ st.loc, ¬ e.2.name = n)
+    (h : flush sh st ord w = (st', w', res)) :
+    (∀ p ∈ newPts w w', p.api.get n = none) ∧ w'.api.get n = none := by
+  unfold flush at h
+  cases hS : syncAll sh st.cfg.shard st.cfg.steps (arrange ord st.loc) w with
+  | mk w1 r =>
+  rw [hS] at h
+  obtain ⟨pts, hr, _⟩ := syncAll_spec sh _ _ _ w w1 r hS
+  have hW : ∀ it, Wl (arrange ord st.loc) it → ¬ it.name = n := by
+    rintro it ⟨e, he, hit⟩ hn
+    exact hloc e (mem_arrange.1 he) (hit.1.symm.trans hn)
+  have h1 := path_absent_pts hr.2 hW hapi
+  have h2 := path_absent hr.2 hW hapi
+  rw [← newPts_of_run hr] at h1
+  cases r <;> (simp only [] at h; cases h; exact ⟨h1, h2⟩)
+
+/-- after an acknowledged `Delete` by the limiter (key = the name's upstream) no cached condition carries the name -/
+theorem c19_delete_uncached (up : Str → Str) (st st' : Store) (k n : Str) (w w' : World)
+    (hwf : LocWf up st.loc) (hk : k = up n) (h : delete st k n w = (st', w', .ok)) : ∀ e ∈ st'.loc, ¬ e.2.name = n := by
+  unfold delete at h
+  split at h
+  · cases h
+  · cases h
+    intro e he hn
+    obtain ⟨hel, hne⟩ := mem_ldel.1 he
+    exact hne ⟨by rw [(hwf e hel).1, hn, hk], hn⟩
+
+/-- **No resurrection, through whole histories.** After `Delete(k, n)` answered nil (issued as the limiter does:
+    `k` is the upstream of the name), whatever follows — saves of other conditions, flushes with any visiting order
+    (with other goroutines' calls inside them), stops, deletions, loads, restarts, under any fault script — `n` is
+    in the API at none of the crash points, as long as nobody saves `n` again. (The deletion itself is an operation
+    of the history, not a call inside a flush: that is what the store mutex guarantees, `genLocks_good`.) -/
+theorem c19_no_resurrection (sh : Str → Nat) (up : Str → Str) (st st1 : Store) (w w1 : World) (k n : Str) (ops : List OpI)
+    (hwf : LocWf up st.loc) (hk : k = up n) (hdel : delete st k n w = (st1, w1, .ok))
+    (hnosave : ∀ op ∈ ops, ¬ savesNameI n op) :
+    (∀ p ∈ newPts w1 (runAll sh st1 w1 ops).2, p.api.get n = none) ∧ (runAll sh st1 w1 ops).2.api.get n = none := by
+  have habs : Abs n st1 w1.api := ⟨(c19_delete_durable st st1 k n w w1 hdel).1, c19_delete_uncached up st st1 k n w w1 hwf hk hdel⟩
+  obtain ⟨pts, hr, h1, h2⟩ := runAll_abs sh ops st1 w1 habs hnosave
+  rw [newPts_of_run hr]
+  exact ⟨h1, h2.1⟩
+
+/-- the same after `DeleteUpstream(k)`, for each of its conditions -/
+theorem c19_no_resurrection_upstream (sh : Str → Nat) (up : Str → Str) (st st1 : Store) (w w1 : World) (k : Str)
+    (ord : List (Str × Str)) (ops : List OpI) (hwf : LocWf up st.loc)
+    (hdel : deleteUpstream st k ord w = (st1, w1, .ok)) (e : Str × Cond) (he : e ∈ llistUp k st.loc)
+    (hnosave : ∀ op ∈ ops, ¬ savesNameI e.2.name op) :
+    (∀ p ∈ newPts w1 (runAll sh st1 w1 ops).2, p.api.get e.2.name = none) ∧
+      (runAll sh st1 w1 ops).2.api.get e.2.name = none := by
+  have hapi := (c19_deleteUpstream_durable st st1 k ord w w1 hdel).1 e he
+  have hloc : ∀ e' ∈ st1.loc, ¬ e'.2.name = e.2.name := by
+    unfold deleteUpstream at hdel
+    split at hdel
+    · cases hdel
+    · cases hdel
+      intro e' he' hn
+      obtain ⟨hel, hne⟩ := mem_ldelUp.1 he'
+      obtain ⟨he0, hek⟩ := mem_llistUp.1 he
+      exact hne (by rw [(hwf e' hel).1, hn, ← (hwf e he0).1, hek])
+  obtain ⟨pts, hr, h1, h2⟩ := runAll_abs sh ops st1 w1 ⟨hapi, hloc⟩ hnosave
+  rw [newPts_of_run hr]
+  exact ⟨h1, h2.1⟩
+
+/-! ## Why the locks are needed: kernel-checked witnesses -/
+
+namespace Witness
+def k : Str := [99]                                     -- upstream "c"
+def n : Str := [99, 46, 105]                            -- condition "c.i"
+def v1 : Cond := ⟨n, k, 1, 1, 0, 0⟩
+def v2 : Cond := ⟨n, k, 2, 2, 0, 0⟩
+def other : Cond := ⟨[99, 46, 115], k, 7, 7, 0, 0⟩       -- condition "c.s"
+def sh : Str → Nat := fun _ => 0
+def up : Str → Str := fun _ => k
+def empty : Api := ⟨[], 1⟩
+/-- write-through: `Save(v1)`; `Stop()` in whose window another goroutine's `Save(v2)` is acknowledged -/
+def racingSave : List OpI := [.plain (.save k v1), .stopI [] 0 (.save k v2)]
+/-- periodic: `Save(v1)`, `Flush()`; a `Flush()` in whose window another goroutine's `Delete` is acknowledged -/
+def racingDelete : List OpI := [.plain (.save k v1), .plain (.flush []), .flushI [] 0 (.delete k n)]
+/-- periodic, faults, a crash: allowed by the locks of the current source -/
+def allowed : List OpI :=
+  [.plain (.save k v1), .plain (.save k other), .flushI [] 1 (.save k v2), .plain (.delete k n), .plain (.flush []),
+   .plain (.restart 0 true), .plain .load, .plain (.save k v1), .plain (.stop [])]
+def faults : List Fault := [.conflict, .transient, .notFound, .ok, .ok, .ok, .conflict, .ok, .ok, .ok, .ok, .ok, .ok, .lost]
+end Witness
+
+theorem apiWf_empty {up : Str → Str} {n : Nat} : ApiWf up ⟨[], n⟩ :=
+  ⟨fun c hc => (by cases hc), fun c hc => (by cases hc)⟩
+
+open Witness in
+/-- What 53e64a0 prevents. If a write-through `Save` could land inside a running flush, the property would fail:
+    `Save(v1)` acknowledged, `Stop()` snapshots `{v1}`, `Save(v2)` is acknowledged inside the window, the flush
+    writes `v1` over it — the acknowledged `v2` is not persisted. -/
+theorem c19_save_inside_flush_refuted :
+    ApiWf up empty ∧ (∀ op ∈ racingSave, OpIWf up op) ∧
+    (checkAll sh (newStore 0 true 5) Ghost.empty ⟨empty, [], []⟩ racingSave).any (fun p => ! judge p.1 p.2) = true := by
+  refine ⟨apiWf_empty, ?_, by decide⟩
+  intro op hop
+  simp only [racingSave, List.mem_cons, List.mem_nil_iff, or_false] at hop
+  rcases hop with rfl | rfl <;> exact ⟨rfl, rfl⟩
+
+open Witness in
+/-- … and the locks of the current source do not allow that history -/
+theorem c19_racing_save_not_allowed : allowedHist genLocks true Witness.racingSave = false := by decide
+
+open Witness in
+/-- What 4930fff prevents. If a `Delete` could land inside a running flush, the flush would re-create the deleted
+    condition from its snapshot. -/
+theorem c19_delete_inside_flush_refuted :
+    ApiWf up empty ∧ (∀ op ∈ racingDelete, OpIWf up op) ∧
+    (checkAll sh (newStore 0 false 5) Ghost.empty ⟨empty, [], []⟩ racingDelete).any (fun p => ! judge p.1 p.2) = true := by
+  refine ⟨apiWf_empty, ?_, by decide⟩
+  intro op hop
+  simp only [racingDelete, List.mem_cons, List.mem_nil_iff, or_false] at hop
+  rcases hop with rfl | rfl | rfl
+  · exact ⟨rfl, rfl⟩
+  · trivial
+  · exact (rfl : k = up n)
+
+open Witness in
+theorem c19_racing_delete_not_allowed : allowedHist genLocks false Witness.racingDelete = false := by decide
+
+/-! ## The hypotheses are satisfiable by a non-trivial history (non-vacuity) -/
+
+open Witness in
+/-- a history with retries, a lost reply, a vanished object, a periodic `Save` inside a flush, a deletion, a crash
+    and a new write-through holder satisfies every hypothesis of `c19_durable_repo` … -/
+example : ApiWf up empty ∧ (∀ op ∈ allowed, OpIWf up op) ∧ allowedHist genLocks false allowed = true := by
+  refine ⟨apiWf_empty, ?_, by decide⟩
+  intro op hop
+  simp only [allowed, List.mem_cons, List.mem_nil_iff, or_false] at hop
+  rcases hop with rfl | rfl | rfl | rfl | rfl | rfl | rfl | rfl | rfl
+  · exact ⟨rfl, rfl⟩
+  · exact ⟨rfl, rfl⟩
+  · exact ⟨rfl, rfl⟩
+  · exact (rfl : k = up n)
+  · trivial
+  · trivial
+  · trivial
+  · exact ⟨rfl, rfl⟩
+  · trivial
+
+open Witness in
+/-- … and its claims are not empty: at some crash point both a "persisted" and an "absent" claim are in force, at
+    the end the re-saved condition is claimed persisted by its acknowledgement -/
+example :
+    let pts := checkAll sh (newStore 0 false 5) Ghost.empty ⟨empty, faults, []⟩ allowed
+    pts.length = 23 ∧ pts.any (fun p => ! p.1.held.isEmpty && ! p.1.gone.isEmpty) = true ∧
+    (pts.getLast?.map (fun p => p.1.held.any (fun h => h.1 == n && h.2.2 == Why.ack))) = some true ∧
+    pts.all (fun p => judge p.1 p.2) = true := by
+  decide
 
 end KG.Props.C19
